@@ -100,9 +100,40 @@ def model_inputs(ob, model):
     return out
 
 
+def eval_term(t, model):
+    """Substitute the model's values for the free constants of t (ints, bools, strings)."""
+    subs = []
+    seen = set()
+
+    def walk(e):
+        if e.get_id() in seen:
+            return
+        seen.add(e.get_id())
+        if z3.is_const(e) and e.decl().kind() == z3.Z3_OP_UNINTERPRETED:
+            nm = e.decl().name()
+            val = model.get(nm)
+            if val is None:
+                val = 0 if z3.is_int(e) else False if z3.is_bool(e) else "" if z3.is_string(e) else None
+            if isinstance(val, bool) and z3.is_bool(e):
+                subs.append((e, z3.BoolVal(val)))
+            elif isinstance(val, int) and not isinstance(val, bool) and z3.is_int(e):
+                subs.append((e, z3.IntVal(val)))
+            elif isinstance(val, str) and z3.is_string(e):
+                subs.append((e, z3.StringVal(val)))
+            return
+        for ch in e.children():
+            walk(ch)
+
+    try:
+        walk(t)
+        return z3.substitute(t, *subs) if subs else t
+    except Exception:
+        return t
+
+
 def value_from_model(v, model):
     def const(t):
-        t = z3.simplify(t)
+        t = z3.simplify(eval_term(t, model))
         if z3.is_int_value(t):
             return t.as_long()
         if z3.is_true(t):
